@@ -31,9 +31,10 @@ CFG = Cfg()
 
 
 class Seq:
-    def __init__(self, gen: Callable[[], Any], same_len_as=None):
+    def __init__(self, gen: Callable[[], Any], same_len_as=None, len_fn=None):
         self._gen = gen
         self._same_len_as = same_len_as
+        self._len_fn = len_fn
         if not CFG.lazy:
             vals = list(gen())
             self._gen = lambda: iter(vals)
@@ -45,6 +46,8 @@ class Seq:
         "Number of elements without evaluating length-preserving projections."
         if self._same_len_as is not None:
             return self._same_len_as._len_only()
+        if self._len_fn is not None:
+            return self._len_fn()
         return sum(1 for _ in self)
 
     def Select(self, f):
@@ -71,11 +74,20 @@ class Seq:
                     raise Unsupported("SelectMany of non-seq")
                 for y in ys:
                     yield y
-        return Seq(g)
+
+        def n():
+            tot = 0
+            for x in self:
+                ys = f(x)
+                if not isinstance(ys, Seq):
+                    raise Unsupported("SelectMany of non-seq")
+                tot += ys._len_only()
+            return tot
+        return Seq(g, len_fn=n)
 
     def Count(self):
-        if CFG.dead_elim and self._same_len_as is not None:
-            return self._same_len_as.Count()
+        if CFG.dead_elim and (self._same_len_as is not None or self._len_fn is not None):
+            return self._len_only()
         return sum(1 for _ in self)
 
     def Sum(self):
